@@ -51,6 +51,16 @@ func init() {
 			}
 			runDelivery(c, p, R, deliveryRuleOf, map[string]string{"C04.R1": "C04.R1", "C04.R2": "C04.R2", "C04.R3": "C04.R3", "C04.R4": "C04.R4"})
 			claimWordDiscipline(c, p, R, "C04.R1")
+			// retirement must remove exactly the claimed registrations from the current
+			// list (by pointer identity), never rewrite the list from stale knowledge
+			c4 := NewCtx(c.Prop, c.Tier, c.Repo)
+			checkWriteBacks(c4, p, R, "C04.R4")
+			checkRegistryEdits(c4, p, R, "C04.R4")
+			for _, o := range c4.Obls {
+				if strings.HasPrefix(o.Construct, "PublishContext/") {
+					c.add(o)
+				}
+			}
 			c.Floor("C04.R1", "claim sites", c.Stats["claim_sites"], 1)
 			c.Floor("C04.R2", "handler invocation sites", c.Stats["handler_invocation_sites"], 7)
 			c.Assume = append(c.Assume, "sync/atomic CompareAndSwap semantics; each Subscribe call allocates a fresh registration (checked under C01.R5)", "Subscribe's typing guarantees the reflective fallback only sees func kinds with 1 or 2 inputs")
@@ -116,7 +126,7 @@ func init() {
 		Explain: "Structural necessary conditions of 'Sequential handlers never overlap and process events in publish order': (R1) at every invocation site of the handler value, on every path on which the registration's sequential flag is set, that registration's own mutex (same base object) is held, the flag is tested on every path to an invocation, and the mutex is released only after the invocation (also on the panic edge) — with sync.Mutex semantics this gives non-overlap under every schedule; (R2) exactly-once delivery per publish (the C01.R4 automaton); (R3) necessary condition for order of Async+Sequential: the publisher must record the publish order in shared state before Publish returns (a sequencing effect other than WaitGroup.Add on the async dispatch path). R3 decides only that a mechanism is present, not that it is correct.",
 		Run: func(c *Ctx) {
 			c.Rule("C07.R1", "sequential flag set ⇒ the registration's own mutex is held at every invocation, released after it on every exit")
-			c.Rule("C07.R2", "each registration is dispatched at most once per publish and skipped only for filter/context/claim")
+			c.Rule("C07.R2", "each registration is dispatched at most once per publish (over a private snapshot) and skipped only for filter/context/claim")
 			c.Rule("C07.R3", "async dispatch of a sequential registration has a publisher-side sequencing effect (necessary for publish order)")
 			p, R := busRoles(c, "C07.R1")
 			if R == nil {
@@ -124,6 +134,7 @@ func init() {
 			}
 			runFrames(c, p, R, map[string]string{"C07.R1": "C07.R1", "C05.R3": "C07.R1"})
 			runDelivery(c, p, R, deliveryRuleOf, map[string]string{"C01.R4": "C07.R2", "C05.R1": "C07.R2"})
+			checkSnapshot(c, p, R, "C07.R2")
 			c.Floor("C07.R1", "handler invocation sites", c.Stats["handler_invocation_sites"], 7)
 			c.Floor("C07.R1", "sequential lock sites", c.Stats["seq_lock_sites"], 2)
 			checkAsyncSequencing(c, p, R)
